@@ -19,6 +19,8 @@ import (
 	"os"
 	"path"
 	"path/filepath"
+
+	"chainguard.dev/apko/pkg/verifhook"
 )
 
 func ResolvePath(p string, includePaths []string) (string, error) {
@@ -52,9 +54,11 @@ func AdvertiseCachedFile(src, dst string) error {
 		// Since `src` is unadvertised, it is safe to remove it. Ideally we want this to succeeds,
 		// but we don't want to fail a build just because we couldn't clean up. This will be
 		// left for background clean up process based on age.
+		verifhook.Point("advertise.pre-remove")
 		_ = os.Remove(src)
 		return nil
 	}
+	verifhook.Point("advertise.pre-symlink")
 	// Create the symlink.
 	if err := os.Symlink(rel, dst); err != nil {
 		// Ignore already exists errors. We don't even want to do clean up here even when
@@ -65,5 +69,6 @@ func AdvertiseCachedFile(src, dst string) error {
 		}
 		return fmt.Errorf("linking (cached) %s to %s: %w", rel, dst, err)
 	}
+	verifhook.Point("advertise.linked")
 	return nil
 }
